@@ -552,6 +552,10 @@ def getattr_(interp, st, v, name):
     if isinstance(v, (Model, CM)) and name in getattr(v, 'attrs', {}):
         yield st, v.attrs[name]
         return
+    if isinstance(v, CM) and v.value is not None and not isinstance(v.value, CM) and name not in ('__enter__', '__exit__'):
+        # an object that is its own context manager (a file): outside `with ... as` its methods are those of the managed value
+        yield from getattr_(interp, st, v.value, name)
+        return
     # methods on builtin-ish values are bound lazily
     yield st, Bound(v, name)
 
@@ -603,6 +607,13 @@ def getitem(interp, st, v, idx):
     v = resolve(st, v)
     if isinstance(v, Unknown):
         v.note(interp, st)
+        expected = [n for c in getattr(interp, 'try_catches', []) for n in c if n in ('KeyError', 'IndexError', 'LookupError')]
+        if expected:
+            # the code expects this lookup to fail sometimes: it may
+            miss = st.copy()
+            miss.emit('unknown_state_lookup_failed', name=v.name, key=idx)
+            yield miss, Raised(Exc('KeyError' if 'IndexError' not in expected else expected[0], (idx,)))
+        st.emit('unknown_state_get', name=v.name, key=idx)
         yield st, Unknown(v.name + '[]', v.owner)
         return
     if isinstance(v, SV) and isinstance(v.ty, Opt):
@@ -771,10 +782,65 @@ def getslice(interp, st, v, lo, hi, step):
     raise Unsupported(f'slice of {v!r}')
 
 
+def _z_parts(st, x):
+    """z3 terms of a key / value (tuples component-wise); None when a part has no term"""
+    x = resolve(st, x)
+    if isinstance(x, tuple):
+        out = []
+        for e in x:
+            r = _z_parts(st, e)
+            if r is None:
+                return None
+            out += r
+        return out
+    if isinstance(x, SV):
+        return [x.z]
+    if isinstance(x, (str, bytes, int, bool)) or x is None:
+        return []
+    return None
+
+
+def _kept_entry_obligation(interp, st, o, idx, v):
+    """An entry the code keeps in instance state it also reads back by key (a cache): whoever finds it later gets THIS value for every
+    input that maps to the same key, so the value has to be determined by the key.  Two-run formulation: for two arbitrary runs
+    reaching this store with equal keys the stored values are equal."""
+    if not any(e.kind in ('unknown_state_get', 'unknown_state_lookup_failed') and e.data.get('name') == o.name for e in st.events):
+        return
+    ks, vs = _z_parts(st, idx), _z_parts(st, v)
+    if ks is None or not vs:
+        return
+    pc = [c for c in st.pc]
+    consts = {}
+
+    def walk(e, seen):
+        if e.get_id() in seen:
+            return
+        seen.add(e.get_id())
+        if z3.is_const(e) and e.decl().kind() == z3.Z3_OP_UNINTERPRETED:
+            consts[e.decl().name()] = e
+        for c in e.children():
+            walk(c, seen)
+        if z3.is_quantifier(e):
+            walk(e.body(), seen)
+
+    seen = set()
+    for e in ks + vs + pc:
+        walk(e, seen)
+    sub = [(c, z3.Const(n + "'", c.sort())) for n, c in consts.items()]
+    prime = lambda e: z3.substitute(e, *sub) if sub else e
+    same_key = z3.And(*[k == prime(k) for k in ks]) if ks else z3.BoolVal(True)
+    from .interp import Obligation
+    interp.obligations.append(Obligation(
+        f'{interp.unit_name}.entry_kept_in_instance_state_is_determined_by_its_key[{o.name}]',
+        pc + [prime(c) for c in pc] + [same_key], z3.And(*[x == prime(x) for x in vs]), 'top',
+        {'state': o.name, 'note': "primed names (x') are the second run"}))
+
+
 def setitem(interp, st, o, idx, v):
     o = resolve(st, o)
     if isinstance(o, Unknown):
-        st.emit('unknown_state_set', name=o.name)       # a write into state nobody under contract reads
+        st.emit('unknown_state_set', name=o.name, key=idx, value=v)       # a write into state nobody under contract reads
+        _kept_entry_obligation(interp, st, o, idx, v)
         yield st, None
         return
     if isinstance(o, PyRef) and o.kind == 'dict':
